@@ -1,7 +1,7 @@
 (* C09 — Directory cache is transparent under concurrency, eviction and coalescing (statements; see also C08). *)
-From Coq Require Import NArith List.
+From Coq Require Import NArith ZArith List.
 Import ListNotations.
-From PM Require Import Model.Server Proofs.Server Proofs.ServerExec.
+From PM Require Import Model.Server Model.ServerRun Proofs.Server Proofs.ServerExec Proofs.ServerSize.
 Open Scope N_scope.
 
 Section C09.
@@ -30,5 +30,19 @@ Proof.
 Qed.
 End C09.
 
+(* the byte accounting of the cache (Model/ServerRun.v: eviction list with orphans, purge, move-to-front, eviction loop): whatever the
+   requests, releases, faults, replacements and deletions, after every step of the scheduler the reported size is below the configured
+   limit (for every positive limit: cache sizes of at least 1 MB are limits of at least 1 000 000) *)
+Theorem C09_size_bound : forall (limit:Z) ms x, (0 < limit)%Z ->
+  fold_left (fun o m => match o with Some x => macro x m | None => None end) ms (Some (xinit limit)) = Some x ->
+  (x_total x < limit)%Z /\ x_limit x = limit.
+Proof. exact size_bound. Qed.
+(* ... and it is the sum of the sizes on the eviction list, message by message *)
+Theorem C09_size_accounting : forall x m x', below x -> (0 < x_limit x)%Z -> macro x m = Some x' -> below x' /\ x_limit x' = x_limit x.
+Proof. exact macro_below. Qed.
+
+
 Print Assumptions C09_transparent.
 Print Assumptions C09_no_cross_talk.
+Print Assumptions C09_size_bound.
+Print Assumptions C09_size_accounting.
